@@ -40,6 +40,26 @@ type gateHarness struct {
 	sendN        int
 	sendFail     map[int]bool
 	gateableSent int
+	kept         [][]*el.Event // the slices ComposeFrom was given, index-aligned with composeLog: the receiver may keep them
+}
+
+// checkKept: a slice handed to ComposeFrom belongs to the receiver from then on (nothing says it is
+// only valid during the call): whatever the filter does later must not change what it holds.
+func (h *gateHarness) checkKept(rc *RunCtx) {
+	for i, evs := range h.kept {
+		var now []int
+		for _, e := range evs {
+			if gp, ok := e.Payload.(*gPayload); ok {
+				now = append(now, gp.Seq)
+			} else {
+				now = append(now, -1)
+			}
+		}
+		if !seqsEqual(now, h.composeLog[i]) {
+			rc.Failf(rc.Prop+".composed-slice-reused", "", "ComposeFrom call #%d was given the events %v; the slice it was given now holds %v: the filter went on using its storage for other events", i+1, h.composeLog[i], now)
+			return
+		}
+	}
 }
 
 type gPayload struct {
@@ -75,6 +95,7 @@ func (p *gPayload) ComposeFrom(events []*el.Event) (el.EventType, interface{}, e
 	h.composeN++
 	n := h.composeN
 	h.composeLog = append(h.composeLog, seqs)
+	h.kept = append(h.kept, events)
 	if h.composeFail[n] {
 		return "", nil, fmt.Errorf("injected compose failure #%d", n)
 	}
@@ -121,6 +142,7 @@ type gateOp struct {
 	Flush bool   `json:"flush,omitempty"`
 	D     int64  `json:"advance_ns,omitempty"`
 	Seq   int    `json:"seq,omitempty"`
+	Done  bool   `json:"ctx_done,omitempty"` // event: the context handed to Process is already done (the Send was cancelled while the event was in flight)
 }
 
 type gateDesc struct {
@@ -179,6 +201,7 @@ func runGateSeqOps(rc *RunCtx, prop string, fixed []gateOp, fixedBroker bool) {
 	tp := rc.Tape
 	sim := rc.Sim
 	h := &gateHarness{now: time.Date(2026, 5, 1, 0, 0, 0, 0, time.UTC), composeFail: map[int]bool{}, composeGate: map[int]bool{}, sendFail: map[int]bool{}}
+	rc.Final = append(rc.Final, func() { h.checkKept(rc) })
 	E := []time.Duration{100, 1000, 10 * time.Second, 100, time.Duration(math.MaxInt64)}[tp.Choose(5, "expiration")] // the last one: "never expire"
 	hasBroker := tp.Choose(4, "broker") != 0
 	if fixed != nil {
@@ -250,6 +273,9 @@ func runGateSeqOps(rc *RunCtx, prop string, fixed []gateOp, fixedBroker bool) {
 				op = gateOp{Kind: "event", ID: ids[i-n], Flush: true}
 			case c < 8:
 				op = gateOp{Kind: "event", ID: ids[tp.Choose(nIDs, "id")], Flush: tp.Choose(5, "flush") == 0}
+				if fixed == nil && tp.Choose(6, "ctx-done") == 0 {
+					op.Done = true // what the gate does with an event does not depend on the caller's context
+				}
 			case c < 9:
 				op = gateOp{Kind: "plain"}
 			case c < 10:
@@ -418,10 +444,17 @@ func runGateSeqOps(rc *RunCtx, prop string, fixed []gateOp, fixedBroker bool) {
 			case "event":
 				seq++
 				op.Seq = seq
-				histStr = append(histStr, fmt.Sprintf("event(%s,flush=%v)#%d", op.ID, op.Flush, seq))
+				histStr = append(histStr, fmt.Sprintf("event(%s,flush=%v)#%d%s", op.ID, op.Flush, seq, map[bool]string{true: "[ctx done]", false: ""}[op.Done]))
 				// (creation stamps need not follow arrival order: overlapping Sends, a stopped or reset Broker clock)
 				ev := &el.Event{Type: "t", CreatedAt: gateStamp(seq), Payload: &gPayload{ID: op.ID, Flush: op.Flush, Seq: seq, h: h}}
-				out, err := gf.Process(ctx, ev)
+				pctx := ctx
+				if op.Done {
+					c, cancel := context.WithCancel(ctx)
+					cancel()
+					pctx = c
+					simrt.Probe("gate.context-done")
+				}
+				out, err := gf.Process(pctx, ev)
 				T := h.now
 				// 1. expired groups, oldest first
 				failedEarly := false
@@ -615,6 +648,7 @@ func runGateConc(rc *RunCtx) {
 	tp := rc.Tape
 	sim := rc.Sim
 	h := &gateHarness{composeFail: map[int]bool{}, composeGate: map[int]bool{}, sendFail: map[int]bool{}}
+	rc.Final = append(rc.Final, func() { h.checkKept(rc) })
 	hasBroker := tp.Choose(3, "broker") != 0
 	gf := &gated.Filter{Expiration: time.Hour}
 	if hasBroker {
@@ -757,6 +791,7 @@ func runGateExpiryConc(rc *RunCtx) {
 	tp := rc.Tape
 	sim := rc.Sim
 	h := &gateHarness{composeFail: map[int]bool{}, composeGate: map[int]bool{}, sendFail: map[int]bool{}}
+	rc.Final = append(rc.Final, func() { h.checkKept(rc) })
 	E := time.Duration(2000+tp.Choose(20000, "expiration")) * time.Nanosecond
 	// the filter's clock: the simulator's ticking clock, logged per task so that
 	// the oracle knows exactly which instants each Process call saw
@@ -881,6 +916,7 @@ func runGateFlushConc(rc *RunCtx) {
 	tp := rc.Tape
 	sim := rc.Sim
 	h := &gateHarness{composeFail: map[int]bool{}, composeGate: map[int]bool{}, sendFail: map[int]bool{}}
+	rc.Final = append(rc.Final, func() { h.checkKept(rc) })
 	gf := &gated.Filter{Expiration: time.Hour, Broker: &fakeSender{h: h}}
 	nGroups := 2 + tp.Choose(4, "ngroups")
 	seq := 0
@@ -1293,6 +1329,7 @@ func runGateBroker(rc *RunCtx) {
 	tp := rc.Tape
 	sim := rc.Sim
 	h := &gateHarness{now: time.Date(2026, 5, 1, 0, 0, 0, 0, time.UTC), composeFail: map[int]bool{}, composeGate: map[int]bool{}, sendFail: map[int]bool{}}
+	rc.Final = append(rc.Final, func() { h.checkKept(rc) })
 	E := []time.Duration{50, 1000}[tp.Choose(2, "expiration")]
 	b, _ := el.NewBroker()
 	var emitLog [][]int
